@@ -81,3 +81,24 @@ def rule_record_lookup(rep, fb):
                         ok = True
                 r.check(ok, "util::fieldindex", where, "util::fieldindex does not scan recordlookup in ascending order returning the first match", detail="ascending scan, first match")
     return r.done()
+
+
+def rule_regular_length(rep, fb, floor=30):
+    r = rep.rule("REBUILD.regular-length", "every construction of a RegularArray in libawkward passes the explicit length argument (zeros_length): it is the only carrier of the array's length when size == 0, "
+                 "so dropping it turns N empty lists into 0 lists", floor=floor)
+    from ..core import load_table
+    table = load_table("rebuild_exceptions.json")
+    cnt = {}
+    for f in fb.lib_funcs():
+        for node in find_all(f["body"], lambda n: n[0] in ("make", "ctor") and len(n) >= 3 and str(n[1]).replace("const ", "").strip() == "RegularArray"):
+            if len(node[2]) < 3:
+                continue   # copy construction etc.
+            cnt[f["qual"]] = cnt.get(f["qual"], 0) + 1
+            key = "%s#%d" % (f["qual"], cnt[f["qual"]])
+            if len(node[2]) < 5 and f["qual"] in table:
+                r.excepted(f["qual"], table[f["qual"]])
+                r.ok(key)
+                continue
+            r.check(len(node[2]) >= 5, key, "%s:%d" % (f["file"], node[-1] if isinstance(node[-1], int) else f["line"]),
+                    "%s constructs a RegularArray without the explicit length argument: with size == 0 the result has length 0 regardless of the input" % f["qual"], detail="RegularArray(identities, parameters, content, size, length)")
+    return r.done()
